@@ -41,6 +41,7 @@ META = {
 }
 
 KNOWN_ID = "K-C01-yaml-overflow-float-string"
+KNOWN_TOML = "K-C01-toml-mixed-array-regrouped"
 
 
 def run_fidelity(outcome, tier, seed):
@@ -60,7 +61,7 @@ def run_fidelity(outcome, tier, seed):
                     plans.append((fmt, v, t, to, mode, frm, len(reqs)))
                     reqs.append({"id": len(reqs), "to": to, "calls": [call]})
     resps = common.harness_batch(reqs, timeout=1800)
-    known, pairs = 0, {}
+    known, regrouped, pairs = 0, 0, {}
     for fmt, v, t, to, mode, frm, i in plans:
         r = shared.session_result(resps[i])
         pairs[fmt + ">" + to] = pairs.get(fmt + ">" + to, 0) + 1
@@ -86,6 +87,8 @@ def run_fidelity(outcome, tier, seed):
         if to == "toml" and out == b"" and v == {}:
             continue
         ok = len(back) == 1 and fidelity.same_value(back[0], v, to)
+        if ok and to == "toml" and fidelity.classify_toml(back[0], v) == "regrouped":
+            regrouped += 1
         if not ok and frm is None:
             continue
         if not ok:
@@ -94,8 +97,8 @@ def run_fidelity(outcome, tier, seed):
                 continue
             outcome.oracle_failures.append(dict(info, what="the output, read by an independent reader of the target format, does not denote the input value",
                                                 output_hex=r[2][:1500], read_back=repr(back)[:600]))
-    if known:
-        outcome.extra["known_class_hits"] = {KNOWN_ID: known}
+    if known or regrouped:
+        outcome.extra["known_class_hits"] = {KNOWN_ID: known, KNOWN_TOML: regrouped}
     outcome.evaluations += len(reqs)
     outcome.distinct_nontrivial += len(plans)
     outcome.extra["fidelity_oracle"] = {"documents": len(docs), "translations_read_back": len(plans), "pairs": pairs}
@@ -103,7 +106,7 @@ def run_fidelity(outcome, tier, seed):
 
 
 def run_known(outcome):
-    """The listed finding's witness: does it still reproduce?"""
+    """The listed findings' witnesses: do they still reproduce?"""
     for k in common.load_known("C01"):
         w = k["witness"]
         r = shared.session_result(common.harness_batch([{"id": 0, "to": w["to"], "calls": [
@@ -113,7 +116,9 @@ def run_known(outcome):
             back = gen.read_documents(out, w["to"])
         except ValueError:
             back = None
-        want = json.loads(w["input"])
+        want = gen.read_documents(w["input"].encode(), w["from"])[0]
+        if w["to"] == "toml":
+            want = gen.toml_reorder(want)
         if r[0] == "ok" and (back is None or len(back) != 1 or not gen.values_equal(back[0], want)):
             outcome.known_hits.append((k["id"], "%s -> %s of %s: output %r reads back as %r" % (w["from"], w["to"], w["input"], out.decode("utf-8", "replace"), back)))
         else:
@@ -133,8 +138,9 @@ def run(outcome, tier, seed):
     run_fidelity(outcome, tier, seed)
     run_known(outcome)
     listed = {k["id"] for k in common.load_known("C01")}
-    if outcome.extra.get("known_class_hits") and KNOWN_ID not in listed:
-        outcome.oracle_failures.append({"what": "unlisted defect class " + KNOWN_ID})
+    for fid in (KNOWN_ID, KNOWN_TOML):
+        if outcome.extra.get("known_class_hits", {}).get(fid) and fid not in listed:
+            outcome.oracle_failures.append({"what": "unlisted defect class " + fid})
 
 
 def replay(outcome, path):
